@@ -518,6 +518,84 @@ type MemoSite struct {
 	Site      string `json:"site"` // <package dir>:<func>:<field>
 	Kind      string `json:"kind"` // atomic.Pointer | sync.Map
 	LoadFirst bool   `json:"load_first"`
+	// Metered: the fill site can report to a gauge: the function has a parameter whose type mentions a gauge /
+	// context, or its body (closures it merely constructs are ignored: they run later, at every use, not at
+	// fill time) mentions an identifier containing "gauge" or calls common.UseMemory / common.UseComputation.
+	// C31: cache fills must be UNMETERED, otherwise metering depends on what ran earlier in the process.
+	Metered bool   `json:"metered"`
+	MeteredBy string `json:"metered_by,omitempty"`
+}
+
+// meteredByDeep also follows calls of methods on the same receiver (c.new(...) in smallIntegerValueCache.Get).
+func (p *pkgInfo) meteredByDeep(fd *ast.FuncDecl, depth int) string {
+	if why := meteredBy(fd); why != "" {
+		return why
+	}
+	typ, recv := recvType(fd)
+	if typ == "" || recv == "" || depth >= 2 {
+		return ""
+	}
+	why := ""
+	ast.Inspect(fd.Body, func(n ast.Node) bool {
+		if why != "" {
+			return false
+		}
+		if _, ok := n.(*ast.FuncLit); ok {
+			return false
+		}
+		c, ok := n.(*ast.CallExpr)
+		if !ok {
+			return true
+		}
+		se, ok := c.Fun.(*ast.SelectorExpr)
+		if !ok {
+			return true
+		}
+		if id, ok := se.X.(*ast.Ident); ok && id.Name == recv {
+			if m := p.methods[typ][se.Sel.Name]; m != nil && m.Body != nil && m != fd {
+				if w := p.meteredByDeep(m, depth+1); w != "" {
+					why = "via " + funcName(m) + ": " + w
+				}
+			}
+		}
+		return true
+	})
+	return why
+}
+
+// meteredBy reports why a function could meter ("" if it cannot).
+func meteredBy(fd *ast.FuncDecl) string {
+	if fd.Type.Params != nil {
+		for _, f := range fd.Type.Params.List {
+			t := exprString(f.Type)
+			lt := strings.ToLower(t)
+			if strings.Contains(lt, "gauge") || strings.Contains(lt, "context") || strings.Contains(lt, "interpreter") {
+				return "parameter of type " + t
+			}
+		}
+	}
+	why := ""
+	var visit func(n ast.Node) bool
+	visit = func(n ast.Node) bool {
+		if why != "" {
+			return false
+		}
+		switch x := n.(type) {
+		case *ast.FuncLit:
+			return false // constructed here, executed later
+		case *ast.Ident:
+			if strings.Contains(strings.ToLower(x.Name), "gauge") {
+				why = "identifier " + x.Name
+			}
+		case *ast.SelectorExpr:
+			if x.Sel.Name == "UseMemory" || x.Sel.Name == "UseComputation" || x.Sel.Name == "MeterMemory" || x.Sel.Name == "MeterComputation" {
+				why = "call of " + exprString(x)
+			}
+		}
+		return true
+	}
+	ast.Inspect(fd.Body, visit)
+	return why
 }
 
 func memoSites(p *pkgInfo, rel string) []MemoSite {
@@ -595,10 +673,13 @@ func memoSites(p *pkgInfo, rel string) []MemoSite {
 			sort.Strings(flds)
 			for _, f := range flds {
 				lp, ok := firstLoad[f]
+				why := p.meteredByDeep(fd, 0)
 				out = append(out, MemoSite{
 					Site:      rel + ":" + funcName(fd) + ":" + f,
 					Kind:      cells[f],
 					LoadFirst: ok && lp < firstStore[f],
+					Metered:   why != "",
+					MeteredBy: why,
 				})
 			}
 		}
